@@ -137,6 +137,12 @@ pub fn run_lines(sh: &mut shell::Shell,
 }
 
 fn expand_args(line: &str, args: &[String]) -> String {
+    if !is_args_in_token(line) {
+        // nothing to substitute: keep the line exactly as written, so that
+        // quoting, escapes and list operators mean the same as with `-c`.
+        return line.to_string();
+    }
+
     let linfo = parsers::parser_line::parse_line(line);
     let mut tokens = linfo.tokens;
     expand_args_in_tokens(&mut tokens, args);
